@@ -2,6 +2,7 @@ package sx
 
 import (
 	"fmt"
+	"regexp"
 	"go/types"
 	"sort"
 	"strings"
@@ -22,6 +23,7 @@ type Config struct {
 	WorkDir         string
 	MaxViolPerLabel int
 	Seed            int64
+	Property        string // obligations tagged with other properties are skipped
 }
 
 func DefaultConfig() Config {
@@ -373,8 +375,31 @@ func (pm *pathMgr) assert(c value, label string) { pm.oblige(c, label, "assert")
 // obligation is an implicit obligation (absence of a run-time panic).
 func (pm *pathMgr) obligation(c symv, label string) { pm.oblige(c, label, "panic") }
 
+var propTag = regexp.MustCompile(`C[0-9][0-9]`)
+
+// relevant: an explicit obligation whose label names properties (C03, C17..)
+// is only checked when the run is for one of them; untagged labels always are.
+func (pm *pathMgr) relevant(label string) bool {
+	if pm.cfg.Property == "" {
+		return true
+	}
+	tags := propTag.FindAllString(label, -1)
+	if len(tags) == 0 {
+		return true
+	}
+	for _, t := range tags {
+		if t == pm.cfg.Property {
+			return true
+		}
+	}
+	return false
+}
+
 func (pm *pathMgr) oblige(c value, label, kind string) {
 	w := pm.w
+	if kind == "assert" && !pm.relevant(label) {
+		return
+	}
 	if pm.concrete != nil {
 		b, ok := c.(bool)
 		if !ok {
